@@ -7,14 +7,54 @@ PID = 'C02'
 LEVEL = 'exploration'
 RULE = META[PID]['rule']
 ASSUMPTIONS = META[PID]['assumptions']
-REQUIRED_COUNTERS = META[PID]['required']
+REQUIRED_COUNTERS = META[PID]['required'] + ['big_charts_entered']
 
 
 def plan(tier):
     return dict(cases=6000 if tier == "quick" else 60000, shards=16, timeout=600 if tier == 'quick' else 3000)
 
 
+def big_case(acc, rnd):
+    """One macro step that needs many default entries: an orthogonal state with 100+ compound regions, or 100+ nested compound
+    states entered through their initial children.  However many micro steps it takes, the configuration returned is stable."""
+    from ..common import import_sismic
+    import_sismic()
+    from sismic.interpreter import Interpreter
+    from sismic.model import BasicState, CompoundState, OrthogonalState, Statechart
+    n = rnd.choice((60, 101, 130, 257))
+    sc = Statechart('big')
+    want = ['root']
+    if rnd.random() < 0.5:
+        shape = 'wide'
+        sc.add_state(CompoundState('root', initial='O'), None)
+        sc.add_state(OrthogonalState('O'), 'root')
+        want.append('O')
+        for i in range(n):
+            sc.add_state(CompoundState('r%03d' % i, initial='l%03d' % i), 'O')
+            sc.add_state(BasicState('l%03d' % i), 'r%03d' % i)
+            want += ['r%03d' % i, 'l%03d' % i]
+    else:
+        shape = 'deep'
+        sc.add_state(CompoundState('root', initial='c000'), None)
+        for i in range(n):
+            sc.add_state(CompoundState('c%03d' % i, initial='c%03d' % (i + 1) if i + 1 < n else 'leaf'), 'root' if i == 0 else 'c%03d' % (i - 1))
+            want.append('c%03d' % i)
+        sc.add_state(BasicState('leaf'), 'c%03d' % (n - 1))
+        want.append('leaf')
+    it = Interpreter(sc)
+    it.execute_once()
+    acc.count('big_charts_entered')
+    got = set(it.configuration)
+    if got != set(want):
+        acc.violation('C02:illegal-configuration', 'a %s chart (%d %s): after the first execute_once %d of the %d states that have to be '
+                      'active are (missing e.g. %r): default entries remain to be made'
+                      % (shape, n, 'regions' if shape == 'wide' else 'nested compound states', len(got & set(want)), len(want),
+                         sorted(set(want) - got)[:3]), dict(shape=shape, n=n))
+
+
 def run_case(acc, rnd, tier, case):
+    if case % 60 == 31:
+        return big_case(acc, rnd)
     if case % 20 == 19:
         return shipped.run_case(acc, rnd, PID, 50 if tier == 'quick' else 120)
     modes = META[PID]['modes']
